@@ -522,7 +522,77 @@ Inductive cop : Type :=
 | OMap (mutating : bool) (e : sexpr) (a : nat)
 | OFromIter (tensor : bool) (sh : shape) (colmajor : bool) (e : sexpr) (a : nat)
 | OFromIters2 (e1 e2 : sexpr) (a : nat)
-| OView (kind : nat) (a : nat).
+| OView (kind : nat) (a : nat)
+| OSelect (f : list (bool * shape) -> option (bool * shape * list (nat * nat))) (srcs : list nat)
+| OCollect (tensor : bool) (sh : shape) (colmajor : bool) (take : nat) (es : list sexpr) (a : nat).
+
+(* how many containers an operation adds to the environment *)
+Definition op_outputs (o : cop) : nat :=
+  match o with
+  | OFromIters2 _ _ _ => 2
+  | OCollect _ _ _ _ es _ => length es
+  | _ => 1
+  end.
+
+(* ---- generic source views (OSelect): a container whose SOURCE is a view over one or several
+   other containers that share one history (RecordTensor / RecordMatrix ::from_existing over a
+   range / mask / reverse / rename / access / transpose / chain / partition / ... of the sources'
+   (number, index) elements).  Model-wise every such view is a relabelling of element
+   positions: element i of the new container is element (snd p) of source (fst p), p = nth i pos.
+   The position map is computed from the sources' kinds and shapes by the function carried in
+   the constructor (Model/ContainerViews.view_map for the view kinds of the case language), so
+   that the theorems about programs cover EVERY such map at once. *)
+Definition select {A} (xs : list (list A)) (pos : list (nat * nat)) : option (list A) :=
+  sequence (map (fun p => match nth_error xs (fst p) with
+                          | Some l => nth_error l (snd p)
+                          | None => None
+                          end) pos).
+Definition sel_shape_ok (tensor : bool) (sh : shape) (n : nat) : bool :=
+  shape_valid sh n && (tensor || Nat.eqb (length sh) 2).
+
+(* ---- from_iters::<N> with N closures: [e1(x), ..., eN(x)] per element, element by element;
+   one list of records per closure *)
+Fixpoint eval_list (t : tape) (es : list sexpr) (x : rec) (first : bool) : option (outcome (tape * list rec)) :=
+  match es with
+  | [] => Some (Ok (t, []))
+  | e :: er =>
+      match rec_eval t e x first with
+      | Some (Ok (t1, y)) =>
+          match eval_list t1 er x first with
+          | Some (Ok (t2, ys)) => Some (Ok (t2, y :: ys))
+          | other => other
+          end
+      | Some (Err e0) => Some (Err e0)
+      | Some Panic => Some Panic
+      | None => None
+      end
+  end.
+Fixpoint push_row {A} (ys : list A) (cols : list (list A)) : list (list A) :=
+  match ys, cols with
+  | y :: yr, c :: cr => (y :: c) :: push_row yr cr
+  | _, _ => []
+  end.
+Fixpoint eval_eachN (t : tape) (es : list sexpr) (rs : list rec) (first : bool)
+  : option (outcome (tape * list (list rec))) :=
+  match rs with
+  | [] => Some (Ok (t, map (fun _ => []) es))
+  | r :: rest =>
+      match eval_list t es r first with
+      | Some (Ok (t1, ys)) =>
+          match eval_eachN t1 es rest false with
+          | Some (Ok (t2, cols)) => Some (Ok (t2, push_row ys cols))
+          | other => other
+          end
+      | Some (Err e0) => Some (Err e0)
+      | Some Panic => Some Panic
+      | None => None
+      end
+  end.
+(* per-output result codes of from_iters: 0 InconsistentHistory, 1 Empty, 2 Shape, 3 this one is Ok *)
+Definition collect_code (r : outcome cont) : sx :=
+  match r with Ok _ => SZ 3%Z | Err e0 => e0 | Panic => SZ 4%Z end.
+Definition collect_all (rs : list (outcome cont)) : option (list cont) :=
+  sequence (map (fun r => match r with Ok c => Some c | _ => None end) rs).
 
 Definition cstate : Type := tape * list cont.
 
@@ -619,6 +689,44 @@ Definition cstep (st : cstate) (o : cop) : option (outcome (tape * list cont)) :
               Some (Ok (t, [mkCont (c_tensor x) (c_shape x)
                                    (map (fun p => (fst p, snd p + 5000)) (c_data x)) None]))
           | _, _, _ => None
+          end
+      | None => None
+      end
+  | OSelect f srcs =>
+      match sequence (map get srcs) with
+      | Some (x0 :: xr) =>
+          if negb (forallb (fun y => exact_same_list (c_hist x0) (c_hist y)) xr) then None else
+          match f (map (fun c => (c_tensor c, c_shape c)) (x0 :: xr)) with
+          | Some (tensor, sh, pos) =>
+              if negb (sel_shape_ok tensor sh (length pos)) then None else
+              match select (map c_data (x0 :: xr)) pos with
+              | Some data => Some (Ok (t, [mkCont tensor sh data (c_hist x0)]))
+              | None => None
+              end
+          | None => None
+          end
+      | _ => None
+      end
+  | OCollect tensor sh colmajor take es a =>
+      (* from_iters::<N>(shape, iter_as_records (row or column major) .take(take) .map(|x| [e1 x, .., eN x]));
+         for N = 1 also from_iter.  Every output that fails is reported. *)
+      match get a with
+      | Some x =>
+          if colmajor && c_tensor x then None else
+          if negb tensor && negb (Nat.eqb (length sh) 2) then None else
+          if Nat.eqb (length es) 0 then None else
+          let rs := as_records x in
+          let rs := if colmajor then column_major (c_shape x) rs else rs in
+          match eval_eachN t es (firstn take rs) true with
+          | Some (Ok (t', cols)) =>
+              let results := map (c_from_iter tensor sh) cols in
+              Some (match collect_all results with
+                    | Some cs => Ok (t', cs)
+                    | None => Err (SL (map collect_code results))
+                    end)
+          | Some (Err e0) => Some (Err e0)
+          | Some Panic => Some Panic
+          | None => None
           end
       | None => None
       end
@@ -814,6 +922,33 @@ Definition estep (st : estate) (o : cop) : option (outcome (tape * list econt)) 
           end
       | None => None
       end
+  | OSelect f srcs =>
+      match sequence (map get srcs) with
+      | Some (x0 :: xr) =>
+          match f (map (fun c => (e_tensor c, e_shape c)) (x0 :: xr)) with
+          | Some (tensor, sh, pos) =>
+              match select (map e_recs (x0 :: xr)) pos with
+              | Some rs => Some (Ok (t, [mkECont tensor sh rs]))
+              | None => None
+              end
+          | None => None
+          end
+      | _ => None
+      end
+  | OCollect tensor sh colmajor take es a =>
+      match get a with
+      | Some x =>
+          if colmajor && e_tensor x then None else
+          if negb tensor && negb (Nat.eqb (length sh) 2) then None else
+          if Nat.eqb (length es) 0 then None else
+          let rs := e_recs x in
+          let rs := if colmajor then column_major (e_shape x) rs else rs in
+          match eval_eachN t es (firstn take rs) true with
+          | Some r => Some (omap (fun p => (fst p, map (mkECont tensor sh) (snd p))) r)
+          | None => None
+          end
+      | None => None
+      end
   end.
 
 Fixpoint erun (st : estate) (n : nat) (prog : list cop) : option (nat * outcome estate) :=
@@ -833,8 +968,7 @@ Fixpoint input_ids (k : nat) (prog : list cop) : list nat :=
   match prog with
   | [] => []
   | ODecl _ true _ _ :: r => k :: input_ids (S k) r
-  | OFromIters2 _ _ _ :: r => input_ids (S (S k)) r
-  | _ :: r => input_ids (S k) r
+  | o :: r => input_ids (k + op_outputs o) r
   end.
 
 End Container.
